@@ -41,7 +41,7 @@ func maybeReload(c *lp.Ctx, cs *Case) {
 // genC02: RangeGet on every input key (retained or de-duplicated away).
 func genC02(c *lp.Ctx) {
 	n := c.Pick(400, 4000)
-	size := c.Pick(60, 300)
+	size := c.Pick(250, 1500)
 	for it := 0; it < n; it++ {
 		ks := gen.Any(c.Rng, size)
 		enc := encNames[1+c.Rng.Intn(len(encNames)-1)] // always with values
@@ -70,7 +70,7 @@ func genC02(c *lp.Ctx) {
 // genC03: Complete mode is an exact ordered map for arbitrary queries.
 func genC03(c *lp.Ctx) {
 	n := c.Pick(250, 2500)
-	size := c.Pick(40, 200)
+	size := c.Pick(200, 1000)
 	for it := 0; it < n; it++ {
 		ks := gen.Any(c.Rng, size)
 		cs := NewCase(c.Rng, ks, completeFlags(c.Rng), "")
@@ -199,7 +199,7 @@ func b2s(b bool) string {
 // genC04: scans on Complete tries; refusal on the 12 incomplete combinations.
 func genC04(c *lp.Ctx) {
 	n := c.Pick(250, 2500)
-	size := c.Pick(40, 200)
+	size := c.Pick(200, 1000)
 	for it := 0; it < n; it++ {
 		ks := gen.Any(c.Rng, size)
 		cs := NewCase(c.Rng, ks, completeFlags(c.Rng), "")
@@ -282,7 +282,7 @@ func genC04(c *lp.Ctx) {
 // genC09: Search on every retained key gives exact neighbours in every mode.
 func genC09(c *lp.Ctx) {
 	n := c.Pick(400, 4000)
-	size := c.Pick(60, 300)
+	size := c.Pick(250, 1500)
 	for it := 0; it < n; it++ {
 		ks := gen.Any(c.Rng, size)
 		cs := NewCase(c.Rng, ks, "", "")
@@ -304,7 +304,7 @@ func genC09(c *lp.Ctx) {
 // genC10: totality and consistency of lookups for arbitrary queries in every mode.
 func genC10(c *lp.Ctx) {
 	n := c.Pick(300, 3000)
-	size := c.Pick(50, 250)
+	size := c.Pick(220, 1200)
 	for it := 0; it < n; it++ {
 		ks := gen.Any(c.Rng, size)
 		cs := NewCase(c.Rng, ks, "", "")
@@ -360,7 +360,7 @@ func genC10(c *lp.Ctx) {
 // genC13: more stored key information only removes false positives.
 func genC13(c *lp.Ctx) {
 	n := c.Pick(120, 1200)
-	size := c.Pick(40, 200)
+	size := c.Pick(200, 1000)
 	modes := []string{"ff", "tf", "ft", "tt"} // inner, leaf
 	for it := 0; it < n; it++ {
 		ks := gen.Any(c.Rng, size)
@@ -420,7 +420,7 @@ func genC13(c *lp.Ctx) {
 // genC14: typed integer getters agree with Get.
 func genC14(c *lp.Ctx) {
 	n := c.Pick(300, 3000)
-	size := c.Pick(50, 250)
+	size := c.Pick(220, 1200)
 	encs := []string{"i8", "i16", "i32", "i64"}
 	for it := 0; it < n; it++ {
 		ks := gen.Any(c.Rng, size)
@@ -460,7 +460,7 @@ func genC14(c *lp.Ctx) {
 // genC18: Stat.
 func genC18(c *lp.Ctx) {
 	n := c.Pick(500, 5000)
-	size := c.Pick(80, 400)
+	size := c.Pick(300, 2000)
 	for it := 0; it < n; it++ {
 		ks := gen.Any(c.Rng, size)
 		cs := NewCase(c.Rng, ks, "", "")
@@ -521,7 +521,7 @@ func (cs *Case) checkStat(c *lp.Ctx, s string) {
 // genC19: String().
 func genC19(c *lp.Ctx) {
 	n := c.Pick(300, 3000)
-	size := c.Pick(120, 600)
+	size := c.Pick(300, 2500)
 	for it := 0; it < n; it++ {
 		var ks gen.KeySet
 		switch c.Rng.Intn(3) {
@@ -620,4 +620,16 @@ func init() {
 	lp.RegisterGen("C14", genC14)
 	lp.RegisterGen("C18", genC18)
 	lp.RegisterGen("C19", genC19)
+	lp.RegisterGen("C19", func(c *lp.Ctx) {
+		bigShapes(c, func(cs *Case) {
+			if a := c.Do("trie.string"); a == "panic" {
+				cs.viol(c, "String() must not panic", "trie.string", "a rendering", a)
+			}
+			cs.checkString(c)
+			c.Do("trie.stat")
+		})
+	})
+	lp.RegisterGen("C18", func(c *lp.Ctx) {
+		bigShapes(c, func(cs *Case) { cs.checkStat(c, c.Do("trie.stat")) })
+	})
 }
